@@ -2085,8 +2085,10 @@ def run(ck: core.Check):
     ck.cov["generated_specs"] = {f"{m}.{c}": s["subgraphs"] for m, f in info["modules"].items() for c, s in f.items()}
     ck.cov["callback_sites"] = info["sites"]
     ck.lean(["SpoxModel.Props.C19"], audit="SpoxModel.Audit.C19")
-    if ck.thorough:
-        ck.leanchecker(["SpoxModel.Props.C19"])
+    if ck.thorough:  # every hand-written module the property theorems rest on
+        ck.leanchecker(["SpoxModel.Props.C19", "SpoxModel.Lemmas.Subgraph", "SpoxModel.Lemmas.SubgraphNested",
+                        "SpoxModel.Model.Subgraph", "SpoxModel.Model.SubgraphNested", "SpoxModel.Model.SubgraphSpec",
+                        "SpoxModel.Model.CallForm", "SpoxModel.Model.CallGraph"])
 
     env = Env()
     install_spy(env)
